@@ -46,7 +46,7 @@ func checkC17(c *core.Ctx) {
 		for _, L := range sweepLengths(c.Thorough()) {
 			si, sh, L := si, sh, L
 			c.Case(fmt.Sprintf("sweep/update/s%d/L%d", si, L), L > 1, func() core.Verdict {
-				v := c17UpdateCase(sh(L), c17LRs[(L+si)%len(c17LRs)], (L+si)%3)
+				v := c17UpdateCase(sh(L), c17LRs[(L+si)%len(c17LRs)], (L+si)%5)
 				if !v.OK && !v.Skip {
 					v.Detail = fmt.Sprintf("length sweep, weight shape %v: %s", sh(L), v.Detail)
 				}
@@ -61,7 +61,7 @@ func checkC17(c *core.Ctx) {
 	shapes = append(shapes, []int{5}, []int{33}, []int{4, 7}, []int{130}, []int{2, 600}, []int{1, 2048}, []int{3, 1, 7, 64}, []int{1024}, []int{2049}, []int{40, 40})
 	for _, s := range shapes {
 		for li, l := range c17LRs {
-			for gm := 0; gm < 3; gm++ {
+			for gm := 0; gm < 5; gm++ {
 				s, l, gm := s, l, gm
 				c.Case(fmt.Sprintf("update/%v/lr%d/g%d", s, li, gm), ref.Size(s) > 1, func() core.Verdict {
 					return c17UpdateCase(s, l, gm)
@@ -600,59 +600,8 @@ func streamFallback(calls []initCall, got []*ref.T, at int, msg string) core.Ver
 		x = append(x, v...)
 	}
 	x = x[:4096]
-	mean, sd := 0., 0.
-	for _, v := range x {
-		mean += v
-	}
-	mean /= float64(len(x))
-	for _, v := range x {
-		sd += (v - mean) * (v - mean)
-	}
-	sd = math.Sqrt(sd / float64(len(x)-1))
-	var em, es float64
-	if kind == "U" {
-		em, es = (a+b)/2, (b-a)/math.Sqrt(12)
-	} else {
-		em, es = a, b
-	}
-	if math.Abs(mean-em) > 6*es/math.Sqrt(4096) || math.Abs(sd-es) > 6*es/math.Sqrt(2*4096)*1.5 {
-		return core.Fail("%s; and sample moments of 4096 elements (mean %v, sd %v) are off the configured (mean %v, sd %v)", msg, mean, sd, em, es)
-	}
-	// shape of the distribution: probability mass of a few windows, 6 sigma of
-	// the binomial count (a truncated or otherwise reshaped law has the right
-	// first two moments but not these)
-	type win struct {
-		name string
-		p    float64
-		in   func(v float64) bool
-	}
-	var wins []win
-	if kind == "N" {
-		wins = []win{
-			{"|x-mu| > 2 sigma", 0.0455, func(v float64) bool { return math.Abs(v-a) > 2*b }},
-			{"|x-mu| > 2.5 sigma", 0.01242, func(v float64) bool { return math.Abs(v-a) > 2.5*b }},
-			{"|x-mu| < 0.5 sigma", 0.38292, func(v float64) bool { return math.Abs(v-a) < 0.5*b }},
-			{"x > mu", 0.5, func(v float64) bool { return v > a }},
-		}
-	} else {
-		q := (b - a) / 4
-		wins = []win{
-			{"first quarter of the support", 0.25, func(v float64) bool { return v < a+q }},
-			{"last quarter of the support", 0.25, func(v float64) bool { return v >= b-q }},
-			{"middle half of the support", 0.5, func(v float64) bool { return v >= a+q && v < b-q }},
-		}
-	}
-	for _, w := range wins {
-		cnt := 0.
-		for _, v := range x {
-			if w.in(v) {
-				cnt++
-			}
-		}
-		n := float64(len(x))
-		if dev := 6 * math.Sqrt(n*w.p*(1-w.p)); math.Abs(cnt-n*w.p) > dev {
-			return core.Fail("%s; and %v of 4096 draws fall in the window '%s' (expected %.0f +- %.0f): not the configured %s distribution", msg, cnt, w.name, n*w.p, dev, map[string]string{"N": "normal", "U": "uniform"}[kind])
-		}
+	if m := distStats(kind, a, b, x); m != "" {
+		return core.Fail("%s; and %s", msg, m)
 	}
 	return core.Verdict{OK: true, Skip: true, Detail: "stream oracle abstains: " + msg}
 }
@@ -697,8 +646,14 @@ func checkC18(c *core.Ctx) {
 		fc := &initializers.FullConfig{Value: 2.5}
 		f := initializers.NewFull(fc)
 		fc.Value = -9
-		if err1 != nil || err2 != nil || err3 != nil || err4 != nil {
-			return core.Fail("constructors: %v %v %v %v", err1, err2, err3, err4)
+		hnc := &initializers.HeNormalConfig{FanIn: 2}
+		hn, err5 := initializers.NewHeNormal(hnc)
+		hnc.FanIn = 800
+		xuc := &initializers.XavierUniformConfig{FanIn: 2, FanOut: 1}
+		xu, err6 := initializers.NewXavierUniform(xuc)
+		xuc.FanIn, xuc.FanOut = 300, 300
+		if err1 != nil || err2 != nil || err3 != nil || err4 != nil || err5 != nil || err6 != nil {
+			return core.Fail("constructors: %v %v %v %v %v %v", err1, err2, err3, err4, err5, err6)
 		}
 		xrand.Seed(seed + 9)
 		src := xrand.New(xrand.NewSource(seed + 9))
@@ -709,7 +664,7 @@ func checkC18(c *core.Ctx) {
 			in   ini
 			kind string
 			a, b float64
-		}{{u, "U", -1, 3}, {n, "N", 1, 2}, {h, "U", -math.Sqrt(2), math.Sqrt(2)}, {x, "N", 0, 1}, {f, "C", 2.5, 0}} {
+		}{{u, "U", -1, 3}, {n, "N", 1, 2}, {h, "U", -math.Sqrt(2), math.Sqrt(2)}, {x, "N", 0, 1}, {f, "C", 2.5, 0}, {hn, "N", 0, 1}, {xu, "U", -math.Sqrt(2), math.Sqrt(2)}} {
 			t, err := e.in.Init([]int{5})
 			if err != nil {
 				return core.Fail("Init: %v", err)
@@ -730,10 +685,23 @@ func checkC18(c *core.Ctx) {
 			sort.Float64s(exp)
 			for i := range exp {
 				if got[i] != exp[i] {
-					// not the seeded stream: judge the support / scale only
+					// not the seeded stream: judge support and, from 4096 more draws of the SAME object, the scale
 					for _, v := range got {
 						if (e.kind == "U" && !(v >= e.a && v < e.b)) || (e.kind == "N" && math.Abs(v-e.a) > 8*e.b) || (e.kind == "C" && v != e.a) {
 							return core.Fail("initializer %d drew %v after the caller changed its config struct (constructed with %s %v %v)", k, v, e.kind, e.a, e.b)
+						}
+					}
+					if e.kind != "C" {
+						var xs []float64
+						for len(xs) < 4096 {
+							t, err := e.in.Init([]int{64})
+							if err != nil {
+								return core.Fail("Init: %v", err)
+							}
+							xs = append(xs, rt.Read(t).V...)
+						}
+						if m := distStats(e.kind, e.a, e.b, xs[:4096]); m != "" {
+							return core.Fail("initializer %d (constructed with %s %v %v) after the caller changed its config struct: %s", k, e.kind, e.a, e.b, m)
 						}
 					}
 					break
@@ -839,6 +807,34 @@ func c17UpdateCase(s []int, l lrCfg, gm int) core.Verdict {
 			return core.Fail("BackPropagate: %v", err)
 		}
 		expG = ref.Map(cc, func(v float64) float64 { return v + 3 })
+	case 3: // the weight meets a partner of HIGHER rank whose extra leading dimensions are 1 (a batch of one): gradient c, of the weight's own shape
+		hs := append([]int{1, 1}, s...)
+		y, err := w.Mul(rt.Make(&ref.T{Shape: hs, V: cc.V}, false))
+		if err != nil {
+			return core.Fail("Mul with a [1,1,...] partner: %v", err)
+		}
+		if err := tensor.BackPropagate(y); err != nil {
+			return core.Fail("BackPropagate: %v", err)
+		}
+		expG = cc
+	case 4: // the partner is the receiver, the weight the lower-rank argument, plus a second contribution of the same kind through Add
+		hs := append([]int{1}, s...)
+		h := rt.Make(&ref.T{Shape: hs, V: cc.V}, false)
+		y1, err := h.Mul(w)
+		if err != nil {
+			return core.Fail("Mul with a [1,...] receiver: %v", err)
+		}
+		y2, err := h.Add(w)
+		if err != nil {
+			return core.Fail("Add with a [1,...] receiver: %v", err)
+		}
+		if err := tensor.BackPropagate(y1); err != nil {
+			return core.Fail("BackPropagate: %v", err)
+		}
+		if err := tensor.BackPropagate(y2); err != nil {
+			return core.Fail("BackPropagate: %v", err)
+		}
+		expG = ref.Map(cc, func(v float64) float64 { return v + 1 })
 	}
 	old := w
 	oldG := w.Gradient()
@@ -881,4 +877,66 @@ func c17UpdateCase(s []int, l lrCfg, gm int) core.Verdict {
 		return core.Fail("failed Update replaced the tensor")
 	}
 	return core.Pass()
+}
+
+// distStats: 4096 draws x of a distribution claimed to be uniform on [a,b) ("U")
+// or normal(a, b) ("N"): sample mean and deviation within 6 sigma, and the
+// probability mass of a few windows within 6 sigma of the binomial count.
+// Returns "" or a description of the first statistic that is off.
+func distStats(kind string, a, b float64, x []float64) string {
+	mean, sd := 0., 0.
+	for _, v := range x {
+		mean += v
+	}
+	mean /= float64(len(x))
+	for _, v := range x {
+		sd += (v - mean) * (v - mean)
+	}
+	sd = math.Sqrt(sd / float64(len(x)-1))
+	var em, es float64
+	if kind == "U" {
+		em, es = (a+b)/2, (b-a)/math.Sqrt(12)
+	} else {
+		em, es = a, b
+	}
+	if math.Abs(mean-em) > 6*es/math.Sqrt(4096) || math.Abs(sd-es) > 6*es/math.Sqrt(2*4096)*1.5 {
+		return fmt.Sprintf("sample moments of 4096 elements (mean %v, sd %v) are off the configured (mean %v, sd %v)", mean, sd, em, es)
+	}
+	// shape of the distribution: probability mass of a few windows, 6 sigma of
+	// the binomial count (a truncated or otherwise reshaped law has the right
+	// first two moments but not these)
+	type win struct {
+		name string
+		p    float64
+		in   func(v float64) bool
+	}
+	var wins []win
+	if kind == "N" {
+		wins = []win{
+			{"|x-mu| > 2 sigma", 0.0455, func(v float64) bool { return math.Abs(v-a) > 2*b }},
+			{"|x-mu| > 2.5 sigma", 0.01242, func(v float64) bool { return math.Abs(v-a) > 2.5*b }},
+			{"|x-mu| < 0.5 sigma", 0.38292, func(v float64) bool { return math.Abs(v-a) < 0.5*b }},
+			{"x > mu", 0.5, func(v float64) bool { return v > a }},
+		}
+	} else {
+		q := (b - a) / 4
+		wins = []win{
+			{"first quarter of the support", 0.25, func(v float64) bool { return v < a+q }},
+			{"last quarter of the support", 0.25, func(v float64) bool { return v >= b-q }},
+			{"middle half of the support", 0.5, func(v float64) bool { return v >= a+q && v < b-q }},
+		}
+	}
+	for _, w := range wins {
+		cnt := 0.
+		for _, v := range x {
+			if w.in(v) {
+				cnt++
+			}
+		}
+		n := float64(len(x))
+		if dev := 6 * math.Sqrt(n*w.p*(1-w.p)); math.Abs(cnt-n*w.p) > dev {
+			return fmt.Sprintf("%v of 4096 draws fall in the window '%s' (expected %.0f +- %.0f): not the configured %s distribution", cnt, w.name, n*w.p, dev, map[string]string{"N": "normal", "U": "uniform"}[kind])
+		}
+	}
+	return ""
 }
